@@ -43,14 +43,28 @@ TileFails(q, src, flags, r) ==
                Fails("content_encoding_listed", r.cenc = "" \/ (IF r.cenc = "br" THEN "brotli" ELSE r.cenc) \in Accepted(q.accept)) \cup
                Fails("content_encoding_known", r.cenc \in {"", "gzip", "br"}))
 
+(* SOURCE IDS: `serve` takes "[id]path", "path[id]", "path#id" or a plain path, whose id is the file name up to the first dot.
+   The id a request has to use is part of the case (computed here, rendered into the argument by the harness). *)
+ServedId(kind, id, stem) == IF kind = "plain" THEN stem ELSE id
+
+(* API endpoints -- system behaviour beyond the listed properties (reported as observations, see DESIGN 10.8):
+   /status answers "ready!"; /tiles/index.json is a JSON array of the source ids in argument order; a request below
+   /tiles/ for an id that was never added is a 404 *)
+ApiFails(r) ==
+    Fails("api_status", r.status.code = 200 /\ r.status.body = "ready!") \cup
+    Fails("api_index_status", r.index.code = 200) \cup
+    Fails("api_index_valid_json", r.index.code # 200 \/ r.index.valid = 1) \cup
+    Fails("api_index_ids", r.index.code # 200 \/ r.index.valid = 0 \/ r.index.ids = r.ids) \cup
+    Fails("api_unknown_source_404", r.unknown = 404)
+
 (* served tiles.json (C17): valid JSON carrying the container's metadata plus a tiles URL template and bounds / zoom
    consistent with the coverage *)
 TilesJsonFails(r) ==
     IF r.resp.status = -1 THEN {"dropped_connection"}
-    ELSE Fails("tilesjson_status", r.resp.status = 200) \cup
-         Fails("tilesjson_valid_json", r.valid = 1) \cup
+    ELSE IF r.resp.status # 200 THEN {"tilesjson_status"}
+    ELSE Fails("tilesjson_valid_json", r.valid = 1) \cup
          (IF r.valid = 0 THEN {} ELSE
-          Fails("tilesjson_template", r.template = "/tiles/" \o r.q.src.id \o "/{z}/{x}/{y}") \cup
+          Fails("tilesjson_template", r.template = "/tiles/" \o r.q.src.sid \o "/{z}/{x}/{y}") \cup
           Fails("tilesjson_zoom", r.minzoom = r.cov_minzoom /\ r.maxzoom = r.cov_maxzoom) \cup
           Fails("tilesjson_bounds", r.bounds_valid = 1) \cup
           Fails("tilesjson_format", r.format = r.q.src.tf) \cup
